@@ -3,6 +3,7 @@ package main
 import (
 	"context"
 	"fmt"
+	"runtime"
 	"sort"
 	"strings"
 	"sync/atomic"
@@ -317,6 +318,7 @@ func buildDag(r *lib.Rng, z *zoo) (*object, error) {
 	var prev []string
 	var all []string
 	var widths []string
+	var layer1 []string
 	d := &dGraph{dag: true}
 	branchLayer := -1
 	if layers >= 3 && r.Chance(2, 3) {
@@ -394,12 +396,36 @@ func buildDag(r *lib.Rng, z *zoo) (*object, error) {
 				}
 			}
 		}
+		if l == 1 {
+			layer1 = cur
+		}
 		prev = cur
 	}
 	for _, k := range prev {
 		must.add(g.AddEdge(k, compose.END))
 		d.edge(k, compose.END)
 	}
+	// Values that user code owns and keeps: a node that hands out THE SAME map object on every run
+	// (a constant table) into the fan-in of every node of layer 1, and (below) a sub-map of the
+	// input that all calls share. The framework merges, copies and forwards them; it must never
+	// write into them (a merge that adopts its first operand in place would).
+	constMap := map[string]any{"kc": "const"}
+	hasConst := z.flag("const", r.Chance(1, 2))
+	if hasConst {
+		must.add(g.AddLambdaNode("kc", compose.InvokableLambda(func(ctx context.Context, in map[string]any) (map[string]any, error) {
+			ev(ctx, "n:kc")
+			see(ctx, "node kc", renderAny(in))
+			return constMap, nil
+		})))
+		d.node("kc", fn1("FConst", "kc"), -1)
+		must.add(g.AddEdge(compose.START, "kc"))
+		d.edge(compose.START, "kc")
+		for _, k := range layer1 {
+			must.add(g.AddEdge("kc", k))
+			d.edge("kc", k)
+		}
+	}
+	sharedCfg := map[string]any{"mode": "m"}
 	if must.err != nil {
 		return nil, must.err
 	}
@@ -420,17 +446,17 @@ func buildDag(r *lib.Rng, z *zoo) (*object, error) {
 	mshared := []string{opT(0, "S", []string{all[0]}), opT(0, "SG")}
 	shared = spare(shared) // spare capacity: an append to the options inside a run must not reach it
 	return &object{
-		desc: d, roots: []any{run, g, shared}, proj: run,
+		desc: d, roots: []any{run, g, shared, constMap, sharedCfg}, proj: run,
 		mcall: func(sp spec, si int) string {
-			return callTerm(vM("id", vS(selfTag), "x", vS(strings.Repeat("x", sp.In+1))),
+			return callTerm(vM("cfg", vM("mode", vS("m")), "id", vS(selfTag), "x", vS(strings.Repeat("x", sp.In+1))),
 				mWithShared(sp.Opt, mshared, mLambdaOpts(si, sp.Opt, des...)), 0)
 		},
-		kind: "dag", shape: []string{"layers:" + fmt.Sprint(layers), "widths:" + strings.Join(widths, "-"), fmt.Sprintf("branch:%v", branchLayer >= 0)},
+		kind: "dag", shape: []string{"layers:" + fmt.Sprint(layers), "widths:" + strings.Join(widths, "-"), fmt.Sprintf("branch:%v", branchLayer >= 0), fmt.Sprintf("const:%v", hasConst)},
 		nIn: 4, paras: allParas,
 		optSet:  []int{0, optLambdaDesignated, optLambdaGlobal, optCbGlobal, optCbThree | optCbDesignated, optCtxHandlers | optCbDesignated, optCbThree | optLambdaGlobal, optShared, optShared | optLambdaDesignated | optCbGlobal},
 		baseCtx: sharedCtx,
 		call: func(ctx context.Context, rc *callRec, sp spec) string {
-			in := map[string]any{"id": rc.tag, "x": strings.Repeat("x", sp.In+1)}
+			in := map[string]any{"cfg": sharedCfg, "id": rc.tag, "x": strings.Repeat("x", sp.In+1)}
 			opts := append(lambdaOpts(rc, sp.Opt, des...), cbOptions(rc, sp.Opt, cbPar)...)
 			return runPara[map[string]any, map[string]any](ctx, run, sp.Para, in, codecM, withShared(sp.Opt, shared, opts))
 		},
@@ -460,6 +486,9 @@ type WMid struct {
 const (
 	wfBadA = "a4"
 	wfBadB = "b28"
+	// ... and the input on which it panics (spec input 5)
+	wfPanicA = "a5"
+	wfPanicB = "b35"
 )
 
 type WOut struct {
@@ -495,6 +524,15 @@ func buildWorkflow(r *lib.Rng, z *zoo) (*object, error) {
 	park := func(ctx context.Context, bad bool) {
 		if rc := recOf(ctx); bad && rc != nil {
 			atomic.AddInt32(&rc.parked, 1)
+			if atomic.LoadInt32(&rc.hold) != 0 {
+				// sequential fault scenario: stay in flight until a node of the NEXT call says that call
+				// is executing (bounded: 5 s), then return into whatever the engine kept of this run
+				for i := 0; atomic.LoadInt32(&rc.release) == 0 && i < 50000; i++ {
+					time.Sleep(100 * time.Microsecond)
+				}
+				atomic.AddInt32(&rc.unparked, 1)
+				return
+			}
 			// stay in flight until the call has returned to its caller (doCall raises the flag of
 			// THIS call's recorder; bounded, in case the engine waits for its tasks), then a little
 			// longer: the caller is in its next call by then
@@ -504,13 +542,32 @@ func buildWorkflow(r *lib.Rng, z *zoo) (*object, error) {
 			time.Sleep(2 * time.Millisecond)
 		}
 	}
+	// a healthy call made right after a faulted one (sequential fault scenario): once its node r is
+	// executing — the run is waiting for its tasks — the abandoned tasks of the faulted call are
+	// let go, and r stays in flight until they have returned and the engine has had time to do
+	// with them whatever it does (a late completion must go nowhere)
+	letGo := func(ctx context.Context) {
+		rc := recOf(ctx)
+		if rc == nil || rc.prev == nil {
+			return
+		}
+		atomic.StoreInt32(&rc.prev.release, 1)
+		for i := 0; atomic.LoadInt32(&rc.prev.unparked) < atomic.LoadInt32(&rc.prev.parked) && i < 20000; i++ {
+			time.Sleep(100 * time.Microsecond)
+		}
+		for i := 0; i < 4; i++ {
+			time.Sleep(500 * time.Microsecond)
+			runtime.Gosched()
+		}
+	}
+	faulty := func(a string) bool { return a == wfBadA || a == wfPanicA }
 	wf := compose.NewWorkflow[WIn, WOut]()
 	wf.AddLambdaNode("l", compose.InvokableLambdaWithOption(func(ctx context.Context, in WLeft, opts ...lopt) (string, error) {
 		ev(ctx, "n:l")
 		see(ctx, "node l", in.ID+in.A)
 		o := applyOpts(ctx, "l", opts)
 		jitter(ctx, z.sched, "l")
-		if in.A == wfBadA {
+		if faulty(in.A) {
 			park(ctx, true)
 		} else {
 			time.Sleep(time.Millisecond)
@@ -521,9 +578,10 @@ func buildWorkflow(r *lib.Rng, z *zoo) (*object, error) {
 		ev(ctx, "n:r")
 		see(ctx, "node r", in)
 		jitter(ctx, z.sched, "r")
-		if in == wfBadB {
+		if in == wfBadB || in == wfPanicB {
 			park(ctx, true)
 		} else {
+			letGo(ctx)
 			time.Sleep(3 * time.Millisecond)
 		}
 		return map[string]any{"v": "r(" + in + ")"}, nil
@@ -531,10 +589,13 @@ func buildWorkflow(r *lib.Rng, z *zoo) (*object, error) {
 	wf.AddLambdaNode("c", compose.InvokableLambda(func(ctx context.Context, in string) (string, error) {
 		ev(ctx, "n:c")
 		see(ctx, "node c", in)
-		if in == wfBadA {
+		if faulty(in) {
 			rc := recOf(ctx)
 			for i := 0; rc != nil && atomic.LoadInt32(&rc.parked) < 2 && i < 100000; i++ {
 				time.Sleep(100 * time.Microsecond) // at most 10 s: l and r of this call are on their way
+			}
+			if in == wfPanicA {
+				panic("guard c gives up")
 			}
 			return "", &nodeErr{"c"}
 		}
@@ -592,7 +653,7 @@ func buildWorkflow(r *lib.Rng, z *zoo) (*object, error) {
 				mWithShared(sp.Opt, mshared, mLambdaOpts(si, sp.Opt, "l", "m")), 0)
 		},
 		kind: "workflow", shape: []string{"wf:mapped+guard"},
-		nIn: 5, paras: allParas,
+		nIn: 6, paras: allParas, faultIn: []int{4, 5},
 		optSet:  []int{0, optLambdaDesignated, optLambdaGlobal, optCbGlobal, optCbThree | optCbDesignated, optCtxHandlers, optShared, optShared | optLambdaGlobal | optCbDesignated},
 		baseCtx: sharedCtx,
 		call: func(ctx context.Context, rc *callRec, sp spec) string {
